@@ -957,6 +957,10 @@ def check_C11(work, args):
                 continue
             failures.append({'grammar': it['text'], 'what': 'accepted grammar, but the generated parser does not compile: ' + it['pb'].rustc_err[:600]})
     tprobs = [it for it in acc if 'terror' in it]
+    # KB: the back-end model must produce the program the translator reads off each emitted parser
+    import kb
+    kbn, kbskip, kbd = kb.compare_items([it for it in acc if 'pb' in it], max_nodes=(400 if quick else 900))
+    kbdiffs = [{'grammar': it['text'], 'what': d} for it, d in kbd]
     # the real binary: graph output on accepted grammars, no parser file for rejected ones
     import subprocess
 
@@ -990,8 +994,10 @@ def check_C11(work, args):
             broken.append('proof: ' + proof_summary(st))
         if tprobs:
             broken.append('translator: %d emitted parsers are outside the command language; first: %s' % (len(tprobs), tprobs[0]['terror']))
+        if kbdiffs:
+            broken.append('KB correspondence (Compile.v vs the program translated from the emitted parser): %d of %d grammars differ; first: %s' % (len(kbdiffs), kbn, json.dumps(kbdiffs[0])[:1200]))
         if broken:
-            ck.violation('; '.join(broken)[:2000], {'broken': broken, 'grammar': tprobs[0]['text'] if tprobs else None}, no_input=True)
+            ck.violation('; '.join(broken)[:2000], {'broken': broken, 'grammar': tprobs[0]['text'] if tprobs else None, 'kb': kbdiffs[:3]}, no_input=True)
     for e in kfs:
         w = e.get('witness')
         if not w:
@@ -1003,7 +1009,8 @@ def check_C11(work, args):
     feat = collections.Counter(f for it in acc if it.get('g') is not None for f in it['g'].features)
     nthm = len(st['theorems'])
     ck.cov = {
-        'obligations': nthm + 1, 'discharged': (nthm if not proof_broken(st) else 0) + (0 if tprobs else 1),
+        'obligations': nthm + 2, 'discharged': (nthm if not proof_broken(st) else 0) + (0 if tprobs else 1) + (0 if kbdiffs else 1),
+        'kb_backend_model': {'grammars_compared_program_equal': kbn - len(kbdiffs), 'differ': len(kbdiffs), 'skipped_too_large_or_unresolved': kbskip},
         'checker_cmd': 'make -C coq ; coqc -Q . LV Props/C11.v (Print Assumptions parsed) ; source audit grep',
         'trusted_base': lv.TRUSTED_BASE + ['rustc decides "compiles"; the driver implements every callback of the generated trait'],
         'theorems': st['theorems'],
